@@ -2,7 +2,7 @@
 import os
 import subprocess
 
-from rules import lib_core, lib_exec, lib_order
+from rules import lib_core, lib_exec, lib_order, lib_wait
 from vlib import facts, pathwalk
 
 KRESULT = lib_order.KRESULT
@@ -319,7 +319,10 @@ def run(ctx):
     rck = ctx.rule('R-CASKIND', 'withdraw CAS strong', minimum=1)
     rec = ctx.rule('R-EVENTCALLBACK', 'the callback a wait registers counts exactly one unit per completing future and '
                    'leaves the future alone; the per-input helper for shared futures forwards to it', minimum=4)
+    rdl = ctx.rule('R-DEADLINE', 'every WaitUntil form hands the caller\'s time_point, unchanged, to the blocking '
+                   'primitive (no conversion to a duration, no arithmetic on the way)', minimum=4)
     for cfg, fb in sorted(fbs.items()):
+        ctx.guard(lambda: lib_wait.check_deadline(ctx, fb, rdl, 4))
         if (ctx.guard(lambda: check_event_callbacks(ctx, fb, rec, ('CallCallback', 'EventHelperCallback'))) or 0) < 2:
             ctx.guard(lambda: ctx.broken('R-EVENTCALLBACK: CallCallback / EventHelperCallback not instantiated'))
         ctx.guard(lambda: lib_order.check(ctx, fb, cfg, ['yaclib::detail::BaseCore::_callback'], rwd, ro, rck))
